@@ -57,7 +57,11 @@ FileCases(tier) ==
       fsets  == {<<[name |-> "f.txt", bytes |-> t]>> : t \in cont}
                   \cup {<<[name |-> "f.txt", bytes |-> t], [name |-> "g.txt", bytes |-> u]>> :
                          t \in StringsUpTo({ba, bb}, 0, 2), u \in {<<>>, <<ba, bb>>, <<ba, ba, bb>>}}
-      stale  == {<<>>, <<[name |-> "f.txt.vored", bytes |-> <<122, 122, 122, 122, 122, 122, 122, 122, 122>>]>>}
+      \* files next to the searched one that a run has no business with: a stale .vored (NEW replaces it), and bystanders
+      \* with names an implementation might use for temporary copies
+      stale  == {<<>>, <<[name |-> "f.txt.vored", bytes |-> <<122, 122, 122, 122, 122, 122, 122, 122, 122>>]>>,
+                 <<[name |-> "f.txt.tmp", bytes |-> <<116, 109, 112>>], [name |-> "f.txt.bak", bytes |-> <<98>>], [name |-> "f.txt~", bytes |-> <<126>>],
+                   [name |-> ".f.txt.swp", bytes |-> <<115>>]>>}
       modes  == {"NOTHING", "NEW", "OVERWRITE"}
       All    == SetToSeq({[cmds |-> c, files |-> f \o st, order |-> [j \in 1..Len(f) |-> f[j].name], mode |-> mo] :
                             c \in cmdls, f \in fsets, st \in stale, mo \in modes})
